@@ -11,7 +11,7 @@ use linfa_clustering::{Dbscan, GaussianMixtureModel, IncrKMeansError, KMeans, KM
 use linfa_elasticnet::{ElasticNet, ElasticNetError, MultiTaskElasticNet};
 use linfa_ftrl::Ftrl;
 use linfa_hierarchical::HierarchicalCluster;
-use linfa_ica::fast_ica::FastIca;
+use linfa_ica::fast_ica::{FastIca, GFunc};
 use linfa_kernel::{Kernel, KernelMethod};
 use linfa_linear::{LinearRegression, TweedieRegressor};
 use linfa_logistic::{LogisticRegression, MultiLogisticRegression};
@@ -435,6 +435,7 @@ struct Data {
     x_cnt: Array2<f64>,
     kernel: Kernel<f64>,
     docs: Array1<String>,
+    files: Vec<std::path::PathBuf>,
     xwide: Array2<f64>,
 }
 
@@ -455,7 +456,15 @@ fn data() -> Data {
         "one two three four".to_string(), "one two three".to_string(), "one two".to_string(), "one five six".to_string(), "seven one two".to_string()
     ];
     let xwide = Array2::from_shape_fn((6, 40), |(i, j)| ((i * 7 + j * 3) % 11) as f64 * 0.25 - 1.0);
-    Data { x, y_bool, y_cls, y3, y_reg, y_pos, y2, x_cnt, kernel, docs, xwide }
+    // the same documents as files, for CountVectorizerParams::fit_files
+    let dir = std::env::temp_dir().join(format!("verif_c04_{}", std::process::id()));
+    std::fs::create_dir_all(&dir).expect("temp dir for the count vectoriser files");
+    let files: Vec<std::path::PathBuf> = docs.iter().enumerate().map(|(i, t)| {
+        let f = dir.join(format!("doc{}.txt", i));
+        std::fs::write(&f, t).expect("write document file");
+        f
+    }).collect();
+    Data { x, y_bool, y_cls, y3, y_reg, y_pos, y2, x_cnt, kernel, docs, files, xwide }
 }
 
 fn xf<T: Fl>(a: &Array2<f64>) -> Array2<T> { a.mapv(T::of) }
@@ -660,15 +669,17 @@ fn builders(thorough: bool) -> Vec<Builder> {
         bs.push(Builder {
             name: "TweedieRegressorParams", label: format!("TweedieRegressorParams<{}>", stringify!($F)), f32_: <$F>::IS32,
             fields: vec![fld("alpha", fam0::<$F>(t), malformed::<$F>()),
-                         fld("power", { let mut c = fam01::<$F>(t); c.push(<$F>::of(3.0).pv()); c }, malformed::<$F>())],
-            defaults: vec![Some(<$F>::of(1.0).pv()), Some(<$F>::of(1.0).pv())],
-            env: zip_env(&["alpha", "power"]),
+                         fld("power", { let mut c = fam01::<$F>(t); c.push(<$F>::of(3.0).pv()); c }, malformed::<$F>()),
+                         // `tol` has no documented range and the guard does not look at it: only its non-finite values are exercised
+                         fld("tol", vec![<$F>::of(1e-4).pv()], malformed::<$F>())],
+            defaults: vec![Some(<$F>::of(1.0).pv()), Some(<$F>::of(1.0).pv()), Some(<$F>::of(1e-4).pv())],
+            env: zip_env(&["alpha", "power", "tol"]),
             // (the f32 instantiation with power 1 does not come back from the L-BFGS line search - unrelated to C04 - so it is never trained)
             safe: Box::new(|v| { let p = v[1].f64(); p == 0.0 || (p == 1.0 && !<$F>::IS32) || p == 2.0 || p == 3.0 }),
             run: std::sync::Arc::new(move |v: &[PV], dflt: bool, calls: bool| {
-                let (a, pw) = (<$F>::get(&v[0]), <$F>::get(&v[1]));
-                let mk = || { let p = TweedieRegressor::<$F>::params(); if dflt { p } else { p.alpha(a).power(pw).max_iter(15) } };
-                let (vref, again, vval, readback) = guard_obs(&mk, &|c| vec![c.alpha().pv(), c.power().pv()], v, &|p| dbg(p), &|c| dbg(c));
+                let (a, pw, tol) = (<$F>::get(&v[0]), <$F>::get(&v[1]), <$F>::get(&v[2]));
+                let mk = || { let p = TweedieRegressor::<$F>::params(); if dflt { p } else { p.alpha(a).power(pw).tol(tol).max_iter(15) } };
+                let (vref, again, vval, readback) = guard_obs(&mk, &|c| vec![c.alpha().pv(), c.power().pv(), c.tol().pv()], v, &|p| dbg(p), &|c| dbg(c));
                 let mut cs = vec![];
                 if calls {
                     let p = mk();
@@ -774,15 +785,18 @@ fn builders(thorough: bool) -> Vec<Builder> {
         let dd = d.clone();
         bs.push(Builder {
             name: "DecisionTreeParams", label: format!("DecisionTreeParams<{},usize>", stringify!($F)), f32_: <$F>::IS32,
-            fields: vec![fld("min_impurity_decrease", fam_eps::<$F>(t), malformed::<$F>()), fld("max_depth", vec![PV::Non, PV::Som(Box::new(PV::N(0))), PV::Som(Box::new(PV::N(2)))], vec![])],
-            defaults: vec![Some(<$F>::of(0.00001).pv()), Some(PV::Non)],
-            env: zip_env(&["min_impurity_decrease", "max_depth"]),
+            fields: vec![fld("min_impurity_decrease", fam_eps::<$F>(t), malformed::<$F>()), fld("max_depth", vec![PV::Non, PV::Som(Box::new(PV::N(0))), PV::Som(Box::new(PV::N(2)))], vec![]),
+                         // no documented range and not looked at by the guard: only their non-finite values are exercised
+                         fld("min_weight_split", vec![PV::F32(2.0)], malformed::<f32>()), fld("min_weight_leaf", vec![PV::F32(1.0)], malformed::<f32>())],
+            defaults: vec![Some(<$F>::of(0.00001).pv()), Some(PV::Non), Some(PV::F32(2.0)), Some(PV::F32(1.0))],
+            env: zip_env(&["min_impurity_decrease", "max_depth", "min_weight_split", "min_weight_leaf"]),
             safe: Box::new(|_| true),
             run: std::sync::Arc::new(move |v: &[PV], dflt: bool, calls: bool| {
                 let mid = <$F>::get(&v[0]);
                 let md = match &v[1] { PV::Som(b) => Some(b.n() as usize), _ => None };
-                let mk = || { let p = DecisionTree::<$F, usize>::params(); if dflt { p } else { p.min_impurity_decrease(mid).max_depth(md) } };
-                let (vref, again, vval, readback) = guard_obs(&mk, &|c| vec![c.min_impurity_decrease().pv(), match c.max_depth() { Some(n) => PV::Som(Box::new(PV::N(n as u64))), None => PV::Non }], v, &|p| dbg(p), &|c| dbg(c));
+                let (mws, mwl) = (f32::get(&v[2]), f32::get(&v[3]));
+                let mk = || { let p = DecisionTree::<$F, usize>::params(); if dflt { p } else { p.min_impurity_decrease(mid).max_depth(md).min_weight_split(mws).min_weight_leaf(mwl) } };
+                let (vref, again, vval, readback) = guard_obs(&mk, &|c| vec![c.min_impurity_decrease().pv(), match c.max_depth() { Some(n) => PV::Som(Box::new(PV::N(n as u64))), None => PV::Non }, PV::F32(c.min_weight_split()), PV::F32(c.min_weight_leaf())], v, &|p| dbg(p), &|c| dbg(c));
                 let mut cs = vec![];
                 if calls {
                     let p = mk();
@@ -919,28 +933,38 @@ fn builders(thorough: bool) -> Vec<Builder> {
                 if calls {
                     let p = mk();
                     let ge = p.check_ref().err().map(es);
-                    cs.push(call_obs("transform", ge,
+                    // the two hand-written `impl Transformer ... for TSneParams` (keys: method:first type argument of the trait)
+                    cs.push(call_obs("transform:Array2<F>", ge.clone(),
                         &|| Transformer::<Array2<f64>, Result<Array2<f64>, linfa_tsne::TSneError>>::transform(&p, dd.x.clone()).map(|m| dbg(&m)).map_err(es),
                         &|| p.check_ref().ok().map(|c| Transformer::<Array2<f64>, Result<Array2<f64>, linfa_tsne::TSneError>>::transform(c, dd.x.clone()).map(|m| dbg(&m)).map_err(es))));
+                    type Ds = DatasetBase<Array2<f64>, Array1<usize>>;
+                    let mkds = || DatasetBase::new(dd.x.clone(), dd.y_cls.clone());
+                    cs.push(call_obs("transform:DatasetBase<Array2<F>,T>", ge,
+                        &|| Transformer::<Ds, Result<Ds, linfa_tsne::TSneError>>::transform(&p, mkds()).map(|m| dbg(m.records())).map_err(es),
+                        &|| p.check_ref().ok().map(|c| Transformer::<Ds, Result<Ds, linfa_tsne::TSneError>>::transform(c, mkds()).map(|m| dbg(m.records())).map_err(es))));
                 }
                 Obs { vref, again, vval, readback, calls: cs }
             }),
         });
     }
 
-    // ---- FastICA
+    // ---- FastICA: tolerance and the G function (the alpha of Logcosh is documented as [1, 2] and tested by fit only)
     {
         let dd = d.clone();
+        let lc = |a: f64| PV::Ctor("Logcosh", vec![PV::F(a)]);
+        let gcands = vec![lc(-1.0), lc(0.5), lc(1.0f64.down()), lc(1.0), lc(1.5), lc(2.0), lc(2.0f64.up()), lc(10.0), PV::Ctor("Exp", vec![]), PV::Ctor("Cube", vec![])];
         bs.push(Builder {
             name: "FastIcaParams", label: "FastIcaParams<f64>".into(), f32_: false,
-            fields: vec![fld("tol", fam0::<f64>(t), malformed::<f64>())],
-            defaults: vec![Some(PV::F(1e-4))],
-            env: zip_env(&["tol"]),
+            fields: vec![fld("tol", fam0::<f64>(t), malformed::<f64>()), fld("gfunc", gcands, malformed::<f64>().into_iter().map(|x| PV::Ctor("Logcosh", vec![x])).collect())],
+            defaults: vec![Some(PV::F(1e-4)), Some(lc(1.0))],
+            env: zip_env(&["tol", "gfunc"]),
             safe: Box::new(|_| true),
             run: std::sync::Arc::new(move |v: &[PV], dflt: bool, calls: bool| {
                 let tol = v[0].f64();
-                let mk = || { let p = FastIca::<f64>::params(); if dflt { p } else { p.tol(tol).max_iter(20).random_state(3) } };
-                let (vref, again, vval, readback) = guard_obs(&mk, &|c| vec![PV::F(c.tol())], v, &|p| dbg(p), &|c| dbg(c));
+                let g = match &v[1] { PV::Ctor("Logcosh", a) => GFunc::Logcosh(a[0].f64()), PV::Ctor("Exp", _) => GFunc::Exp, _ => GFunc::Cube };
+                let mk = || { let p = FastIca::<f64>::params(); if dflt { p } else { p.tol(tol).gfunc(g).max_iter(20).random_state(3) } };
+                let gpv = |g: &GFunc| match g { GFunc::Logcosh(a) => PV::Ctor("Logcosh", vec![PV::F(*a)]), GFunc::Exp => PV::Ctor("Exp", vec![]), GFunc::Cube => PV::Ctor("Cube", vec![]) };
+                let (vref, again, vval, readback) = guard_obs(&mk, &|c| vec![PV::F(c.tol()), gpv(c.gfunc())], v, &|p| dbg(p), &|c| dbg(c));
                 let mut cs = vec![];
                 // (the default builder has no random_state: two fits differ legitimately, so it is not trained)
                 if calls && !dflt {
@@ -1067,15 +1091,356 @@ fn builders(thorough: bool) -> Vec<Builder> {
                     let p = mk();
                     let ge = p.check_ref().err().map(es);
                     let voc = |m: &CountVectorizer| { let mut w = m.vocabulary().clone(); w.sort(); dbg(&w) };
-                    cs.push(call_obs("fit", ge.clone(), &|| p.fit(&dd.docs).map(|m| voc(&m)).map_err(es), &|| p.check_ref().ok().map(|c| c.fit(&dd.docs).map(|m| voc(&m)).map_err(es))));
+                    // the three hand-written methods of CountVectorizerParams (keys: method:type of the first parameter)
+                    cs.push(call_obs("fit:&ArrayBase<D,Ix1>", ge.clone(), &|| p.fit(&dd.docs).map(|m| voc(&m)).map_err(es), &|| p.check_ref().ok().map(|c| c.fit(&dd.docs).map(|m| voc(&m)).map_err(es))));
+                    cs.push(call_obs("fit_files:&[P]", ge.clone(),
+                        &|| p.fit_files(&dd.files, encoding::all::UTF_8, encoding::DecoderTrap::Strict).map(|m| voc(&m)).map_err(es),
+                        &|| p.check_ref().ok().map(|c| c.fit_files(&dd.files, encoding::all::UTF_8, encoding::DecoderTrap::Strict).map(|m| voc(&m)).map_err(es))));
                     let words = ["one", "two"];
-                    cs.push(call_obs("fit_vocabulary", ge, &|| p.fit_vocabulary(&words).map(|m| voc(&m)).map_err(es), &|| p.check_ref().ok().map(|c| c.fit_vocabulary(&words).map(|m| voc(&m)).map_err(es))));
+                    cs.push(call_obs("fit_vocabulary:&[T]", ge, &|| p.fit_vocabulary(&words).map(|m| voc(&m)).map_err(es), &|| p.check_ref().ok().map(|c| c.fit_vocabulary(&words).map(|m| voc(&m)).map_err(es))));
                 }
                 Obs { vref, again, vval, readback, calls: cs }
             }),
         });
     }
     bs
+}
+
+
+// ------------------------------------------------------------------------------------------------
+// setter independence: the same intended parameter set built through different setter chain orders
+
+struct ChainSpec {
+    names: Vec<&'static str>,
+    want: Vec<(&'static str, String)>,
+    /// (rendering of the unchecked builder, fields read back from the checked form when check_ref accepts)
+    eval: Box<dyn Fn(&[usize]) -> (String, Option<Vec<(&'static str, String)>>)>,
+}
+
+type Setter<P> = (&'static str, Box<dyn Fn(P) -> P>);
+fn st<P>(n: &'static str, f: impl Fn(P) -> P + 'static) -> Setter<P> { (n, Box::new(f)) }
+fn dv<T: Debug>(x: T) -> String { format!("{:?}", x) }
+
+fn mk_chain<P: ParamGuard + 'static>(
+    start: impl Fn() -> P + 'static, setters: Vec<Setter<P>>, render: impl Fn(&P) -> String + 'static,
+    getters: impl Fn(&P::Checked) -> Vec<(&'static str, String)> + 'static, want: Vec<(&'static str, String)>,
+) -> ChainSpec {
+    let names = setters.iter().map(|t| t.0).collect();
+    ChainSpec {
+        names, want,
+        eval: Box::new(move |order: &[usize]| {
+            let mut p = start();
+            for &i in order { p = (setters[i].1)(p); }
+            let r = render(&p);
+            let rb = p.check_ref().ok().map(|c| getters(c));
+            (r, rb)
+        }),
+    }
+}
+
+struct ChainBuilder {
+    name: &'static str,                       // the translator's name of the builder
+    label: &'static str,                      // label of the Builder (instantiation) whose grid supplies the intended values
+    spec: Box<dyn Fn(&[PV]) -> ChainSpec>,
+    /// public setters that are deliberately not chained, with the reason
+    skipped: Vec<(&'static str, &'static str)>,
+}
+
+fn chain_builders(d: &std::sync::Arc<Data>) -> Vec<ChainBuilder> {
+    use linfa_clustering::{GmmCovarType, GmmInitMethod, KMeansInit};
+    use linfa_nn::CommonNearestNeighbour;
+    let mut cb: Vec<ChainBuilder> = vec![];
+
+    cb.push(ChainBuilder { name: "KMeansParams", label: "KMeansParams<f64,Xoshiro256Plus,L2Dist>", skipped: vec![], spec: Box::new(|v| {
+        type P = linfa_clustering::KMeansParams<f64, Xoshiro256Plus, L2Dist>;
+        let (k, nr, tol, mi) = (v[0].n() as usize, v[1].n() as usize, v[2].f64(), v[3].n());
+        mk_chain(move || KMeans::<f64, _>::params_with(k, rng(), L2Dist),
+            vec![st::<P>("n_runs", move |p| p.n_runs(nr)), st::<P>("tolerance", move |p| p.tolerance(tol)), st::<P>("max_n_iterations", move |p| p.max_n_iterations(mi)),
+                 st::<P>("init_method", |p| p.init_method(KMeansInit::Random))],
+            |p| dv(p),
+            |c| vec![("n_clusters", dv(c.n_clusters())), ("n_runs", dv(c.n_runs())), ("tolerance", dv(c.tolerance())), ("max_n_iterations", dv(c.max_n_iterations())), ("init_method", dv(c.init_method()))],
+            vec![("n_clusters", dv(k)), ("n_runs", dv(nr)), ("tolerance", dv(tol)), ("max_n_iterations", dv(mi)), ("init_method", dv(KMeansInit::<f64>::Random))])
+    }) });
+
+    cb.push(ChainBuilder { name: "DbscanParams", label: "DbscanParams<f64,L2Dist,CommonNearestNeighbour>", skipped: vec![], spec: Box::new(|v| {
+        type P = linfa_clustering::DbscanParams<f64, L2Dist, CommonNearestNeighbour>;
+        let (mp, tol) = (v[0].n() as usize, v[1].f64());
+        mk_chain(move || Dbscan::params::<f64>(mp),
+            vec![st::<P>("tolerance", move |p| p.tolerance(tol)), st::<P>("nn_algo", |p| p.nn_algo(CommonNearestNeighbour::BallTree)), st::<P>("dist_fn", |p| p.dist_fn(L2Dist))],
+            |p| dv(p),
+            |c| vec![("min_points", dv(c.minimum_points())), ("tolerance", dv(c.tolerance())), ("nn_algo", dv(c.nn_algo())), ("dist_fn", dv(c.dist_fn()))],
+            vec![("min_points", dv(mp)), ("tolerance", dv(tol)), ("nn_algo", dv(CommonNearestNeighbour::BallTree)), ("dist_fn", dv(L2Dist))])
+    }) });
+
+    cb.push(ChainBuilder { name: "OpticsParams", label: "OpticsParams<f64,L2Dist,CommonNearestNeighbour>", skipped: vec![], spec: Box::new(|v| {
+        type P = linfa_clustering::OpticsParams<f64, L2Dist, CommonNearestNeighbour>;
+        let (mp, tol) = (v[0].n() as usize, v[1].f64());
+        mk_chain(move || Optics::params::<f64>(mp),
+            vec![st::<P>("tolerance", move |p| p.tolerance(tol)), st::<P>("dist_fn", |p| p.dist_fn(L2Dist)), st::<P>("nn_algo", |p| p.nn_algo(CommonNearestNeighbour::BallTree))],
+            |p| dv(p),
+            |c| vec![("min_points", dv(c.minimum_points())), ("tolerance", dv(c.tolerance())), ("nn_algo", dv(c.nn_algo())), ("dist_fn", dv(c.dist_fn()))],
+            vec![("min_points", dv(mp)), ("tolerance", dv(tol)), ("nn_algo", dv(CommonNearestNeighbour::BallTree)), ("dist_fn", dv(L2Dist))])
+    }) });
+
+    cb.push(ChainBuilder { name: "GmmParams", label: "GmmParams<f64,Xoshiro256Plus>", skipped: vec![], spec: Box::new(|v| {
+        type P = linfa_clustering::GmmParams<f64, Xoshiro256Plus>;
+        let (k, tol, rc, nr, mi) = (v[0].n() as usize, v[1].f64(), v[2].f64(), v[3].n(), v[4].n());
+        mk_chain(move || GaussianMixtureModel::<f64>::params_with_rng(k, rng()),
+            vec![st::<P>("covariance_type", |p| p.covariance_type(GmmCovarType::Full)), st::<P>("tolerance", move |p| p.tolerance(tol)), st::<P>("reg_covariance", move |p| p.reg_covariance(rc)),
+                 st::<P>("n_runs", move |p| p.n_runs(nr)), st::<P>("max_n_iterations", move |p| p.max_n_iterations(mi)), st::<P>("init_method", |p| p.init_method(GmmInitMethod::Random)),
+                 st::<P>("with_rng", |p| p.with_rng(rng()))],
+            |p| dv(p),
+            |c| vec![("n_clusters", dv(c.n_clusters())), ("covariance_type", dv(c.covariance_type())), ("tolerance", dv(c.tolerance())), ("reg_covariance", dv(c.reg_covariance())),
+                     ("n_runs", dv(c.n_runs())), ("max_n_iterations", dv(c.max_n_iterations())), ("init_method", dv(c.init_method())), ("rng", dv(c.rng()))],
+            vec![("n_clusters", dv(k)), ("covariance_type", dv(GmmCovarType::Full)), ("tolerance", dv(tol)), ("reg_covariance", dv(rc)), ("n_runs", dv(nr)), ("max_n_iterations", dv(mi)),
+                 ("init_method", dv(GmmInitMethod::Random)), ("rng", dv(rng()))])
+    }) });
+
+    cb.push(ChainBuilder { name: "ElasticNetParamsBase", label: "ElasticNetParams<f64>", skipped: vec![], spec: Box::new(|v| {
+        type P = linfa_elasticnet::ElasticNetParams<f64>;
+        let (pen, l1, tol, mi) = (v[0].f64(), v[1].f64(), v[2].f64(), v[3].n() as u32);
+        mk_chain(|| ElasticNet::<f64>::params(),
+            vec![st::<P>("penalty", move |p| p.penalty(pen)), st::<P>("l1_ratio", move |p| p.l1_ratio(l1)), st::<P>("with_intercept", |p| p.with_intercept(false)),
+                 st::<P>("tolerance", move |p| p.tolerance(tol)), st::<P>("max_iterations", move |p| p.max_iterations(mi))],
+            |p| dv(p),
+            |c| vec![("penalty", dv(c.penalty())), ("l1_ratio", dv(c.l1_ratio())), ("with_intercept", dv(c.with_intercept())), ("tolerance", dv(c.tolerance())), ("max_iterations", dv(c.max_iterations()))],
+            vec![("penalty", dv(pen)), ("l1_ratio", dv(l1)), ("with_intercept", dv(false)), ("tolerance", dv(tol)), ("max_iterations", dv(mi))])
+    }) });
+
+    cb.push(ChainBuilder { name: "FtrlParams", label: "FtrlParams<f64,Xoshiro256Plus>", skipped: vec![], spec: Box::new(|v| {
+        type P = linfa_ftrl::FtrlParams<f64, Xoshiro256Plus>;
+        let (a, b, l1, l2) = (v[0].f64(), v[1].f64(), v[2].f64(), v[3].f64());
+        mk_chain(|| Ftrl::<f64>::params_with_rng(rng()),
+            vec![st::<P>("alpha", move |p| p.alpha(a)), st::<P>("beta", move |p| p.beta(b)), st::<P>("l1_ratio", move |p| p.l1_ratio(l1)), st::<P>("l2_ratio", move |p| p.l2_ratio(l2)),
+                 st::<P>("rng", |p| p.rng(Xoshiro256Plus::seed_from_u64(11)))],
+            |p| dv(p),
+            |c| vec![("alpha", dv(c.alpha())), ("beta", dv(c.beta())), ("l1_ratio", dv(c.l1_ratio())), ("l2_ratio", dv(c.l2_ratio())), ("rng", dv(c.rng()))],
+            vec![("alpha", dv(a)), ("beta", dv(b)), ("l1_ratio", dv(l1)), ("l2_ratio", dv(l2)), ("rng", dv(Xoshiro256Plus::seed_from_u64(11)))])
+    }) });
+
+    cb.push(ChainBuilder { name: "HierarchicalCluster", label: "HierarchicalCluster<f64>",
+        skipped: vec![], spec: Box::new(|v| {
+        type P = HierarchicalCluster<f64>;
+        // num_clusters and max_distance both set the stopping criterion: the intended set uses one of them
+        let sel = v[0].clone();
+        let (nm, stop): (&'static str, String) = match &sel { PV::Ctor("NumClusters", a) => ("num_clusters", format!("NumClusters({})", a[0].n())), PV::Ctor(_, a) => ("max_distance", format!("Distance({:?})", a[0].f64())), _ => ("num_clusters", String::new()) };
+        let s2 = sel.clone();
+        mk_chain(|| HierarchicalCluster::<f64>::default(),
+            vec![st::<P>("with_method", |p| p.with_method(linfa_hierarchical::Method::Complete)),
+                 st::<P>(nm, move |p| match &s2 { PV::Ctor("NumClusters", a) => p.num_clusters(a[0].n() as usize), PV::Ctor(_, a) => p.max_distance(a[0].f64()), _ => p })],
+            |p| dv(p),
+            |c| { let t = dv(c); vec![("method", if t.contains("method: Complete") { "Complete".to_string() } else { t.clone() }), ("stopping", t[t.find("stopping: ").map(|i| i + 10).unwrap_or(0)..].trim_end_matches(|ch| ch == ' ' || ch == '}').to_string())] },
+            vec![("method", "Complete".to_string()), ("stopping", stop)])
+    }) });
+
+    cb.push(ChainBuilder { name: "FastIcaParams", label: "FastIcaParams<f64>", skipped: vec![], spec: Box::new(|v| {
+        type P = linfa_ica::hyperparams::FastIcaParams<f64>;
+        let tol = v[0].f64();
+        let g = match &v[1] { PV::Ctor("Logcosh", a) => GFunc::Logcosh(a[0].f64()), PV::Ctor("Exp", _) => GFunc::Exp, _ => GFunc::Cube };
+        mk_chain(|| FastIca::<f64>::params(),
+            vec![st::<P>("ncomponents", |p| p.ncomponents(2)), st::<P>("gfunc", move |p| p.gfunc(g)), st::<P>("max_iter", |p| p.max_iter(33)), st::<P>("tol", move |p| p.tol(tol)),
+                 st::<P>("random_state", |p| p.random_state(5))],
+            |p| dv(p),
+            |c| vec![("ncomponents", dv(c.ncomponents())), ("gfunc", dv(c.gfunc())), ("max_iter", dv(c.max_iter())), ("tol", dv(c.tol())), ("random_state", dv(c.random_state()))],
+            vec![("ncomponents", dv(Some(2usize))), ("gfunc", dv(g)), ("max_iter", dv(33usize)), ("tol", dv(tol)), ("random_state", dv(Some(5usize)))])
+    }) });
+
+    cb.push(ChainBuilder { name: "TweedieRegressorParams", label: "TweedieRegressorParams<f64>", skipped: vec![], spec: Box::new(|v| {
+        type P = linfa_linear::TweedieRegressorParams<f64>;
+        let (a, pw, tol) = (v[0].f64(), v[1].f64(), v[2].f64());
+        mk_chain(|| TweedieRegressor::<f64>::params(),
+            vec![st::<P>("alpha", move |p| p.alpha(a)), st::<P>("fit_intercept", |p| p.fit_intercept(false)), st::<P>("power", move |p| p.power(pw)), st::<P>("link", |p| p.link(linfa_linear::Link::Log)),
+                 st::<P>("max_iter", |p| p.max_iter(17)), st::<P>("tol", move |p| p.tol(tol))],
+            |p| dv(p),
+            |c| vec![("alpha", dv(c.alpha())), ("fit_intercept", dv(c.fit_intercept())), ("power", dv(c.power())), ("link", dv(c.link())), ("max_iter", dv(c.max_iter())), ("tol", dv(c.tol()))],
+            vec![("alpha", dv(a)), ("fit_intercept", dv(false)), ("power", dv(pw)), ("link", dv(linfa_linear::Link::Log)), ("max_iter", dv(17usize)), ("tol", dv(tol))])
+    }) });
+
+    cb.push(ChainBuilder { name: "LogisticRegressionParams", label: "LogisticRegressionParams<f64,Ix1>", skipped: vec![], spec: Box::new(|v| {
+        type P = LogisticRegression<f64>;
+        let (a, g) = (v[0].f64(), v[1].f64());
+        let init: Array1<f64> = match &v[2] { PV::Som(b) => match &**b { PV::Tup(l) => l.iter().map(|x| x.f64()).collect(), _ => array![0.0, 0.0, 0.0] }, _ => array![0.5, 0.25, -1.0] };
+        let i2 = init.clone();
+        // the checked struct has no getters: the fields are read from its Debug rendering
+        let exp = format!("alpha: {:?}, fit_intercept: false, max_iterations: 17, gradient_tolerance: {:?}, initial_params: Some({:?})", a, g, init);
+        mk_chain(|| LogisticRegression::<f64>::default(),
+            vec![st::<P>("alpha", move |p| p.alpha(a)), st::<P>("with_intercept", |p| p.with_intercept(false)), st::<P>("max_iterations", |p| p.max_iterations(17)),
+                 st::<P>("gradient_tolerance", move |p| p.gradient_tolerance(g)), st::<P>("initial_params", move |p| p.initial_params(i2.clone()))],
+            |p| dv(p),
+            |c| { let t = dv(c); vec![("all fields", t[t.find("alpha: ").unwrap_or(0)..].trim_end_matches(|ch| ch == ' ' || ch == '}').to_string())] },
+            vec![("all fields", exp)])
+    }) });
+
+    {
+        let dd = d.clone();
+        cb.push(ChainBuilder { name: "PlsXParams", label: "PlsRegressionParams<f64>", skipped: vec![], spec: Box::new(move |v| {
+            type P = linfa_pls::PlsRegressionParams<f64>;
+            let (tol, mi) = (v[0].f64(), v[1].n() as usize);
+            let ds = Dataset::new(dd.x.clone(), dd.y2.clone());
+            // neither the builder nor the checked wrapper is Debug or has getters: the builder is observed through what fit returns
+            mk_chain(|| PlsRegression::<f64>::params(2),
+                vec![st::<P>("max_iterations", move |p| p.max_iterations(mi)), st::<P>("tolerance", move |p| p.tolerance(tol)), st::<P>("scale", |p| p.scale(false)),
+                     st::<P>("algorithm", |p| p.algorithm(linfa_pls::Algorithm::Svd))],
+                move |p| match guarded(AssertUnwindSafe(|| p.fit(&ds).map(|m| dv(&m)).map_err(es))) { Ok(r) => format!("{:.400?}", r), Err(e) => format!("panic {:.80}", e) },
+                |_| vec![], vec![])
+        }) });
+    }
+
+    cb.push(ChainBuilder { name: "CountVectorizerParams", label: "CountVectorizerParams", skipped: vec![], spec: Box::new(|v| {
+        type P = linfa_preprocessing::CountVectorizerParams;
+        let (n1, n2, f1, f2) = (v[0].n() as usize, v[1].n() as usize, f32::get(&v[2]), f32::get(&v[3]));
+        mk_chain(|| CountVectorizer::params(),
+            vec![st::<P>("tokenizer", |p| p.tokenizer(Tokenizer::Regex(r"\w+".to_string()))), st::<P>("max_features", |p| p.max_features(Some(3))), st::<P>("convert_to_lowercase", |p| p.convert_to_lowercase(false)),
+                 st::<P>("n_gram_range", move |p| p.n_gram_range(n1, n2)), st::<P>("normalize", |p| p.normalize(false)), st::<P>("document_frequency", move |p| p.document_frequency(f1, f2)),
+                 st::<P>("stopwords", |p| p.stopwords(&["one"]))],
+            |p| dv(p),
+            |c| vec![("max_features", dv(c.max_features())), ("convert_to_lowercase", dv(c.convert_to_lowercase())), ("n_gram_range", dv(c.n_gram_range())), ("normalize", dv(c.normalize())),
+                     ("document_frequency", dv(c.document_frequency())), ("stopwords", dv(c.stopwords())), ("split_regex", c.split_regex().as_str().to_string())],
+            vec![("max_features", dv(Some(3usize))), ("convert_to_lowercase", dv(false)), ("n_gram_range", dv((n1, n2))), ("normalize", dv(false)), ("document_frequency", dv((f1, f2))),
+                 ("stopwords", dv(Some(["one".to_string()].iter().cloned().collect::<std::collections::HashSet<String>>()))), ("split_regex", r"\w+".to_string())])
+    }) });
+
+    cb.push(ChainBuilder { name: "DiffusionMapParams", label: "DiffusionMapParams", skipped: vec![], spec: Box::new(|v| {
+        type P = linfa_reduction::DiffusionMapParams;
+        let (stp, em) = (v[0].n() as usize, v[1].n() as usize);
+        mk_chain(move || DiffusionMap::<f64>::params(7),
+            vec![st::<P>("steps", move |p| p.steps(stp)), st::<P>("embedding_size", move |p| p.embedding_size(em))],
+            |p| dv(p),
+            |c| vec![("steps", dv(c.steps())), ("embedding_size", dv(c.embedding_size()))],
+            vec![("steps", dv(stp)), ("embedding_size", dv(em))])
+    }) });
+
+    cb.push(ChainBuilder { name: "RandomProjectionParams", label: "RandomProjectionParams<Gaussian,Xoshiro256Plus>", skipped: vec![], spec: Box::new(|v| {
+        use linfa_reduction::random_projection::RandomProjectionParams as Rp;
+        // target_dim and eps both set the one `params` field: the intended set uses one of them
+        let sel = v[0].clone();
+        let s2 = sel.clone();
+        let (nm, want): (&'static str, (Option<usize>, Option<f64>)) = match &sel { PV::Ctor("Dimension", a) => ("target_dim", (Some(a[0].n() as usize), None)), PV::Ctor(_, a) => ("eps", (None, Some(a[0].f64()))), _ => ("eps", (None, None)) };
+        // (the projection marker type is private and not Debug: the builder is rendered through the checked getters)
+        mk_chain(|| GaussianRandomProjection::<f64>::params(),
+            vec![st(nm, move |p: Rp<_, Xoshiro256Plus>| match &s2 { PV::Ctor("Dimension", a) => p.target_dim(a[0].n() as usize), PV::Ctor(_, a) => p.eps(a[0].f64()), _ => p }),
+                 st("with_rng", |p: Rp<_, Xoshiro256Plus>| p.with_rng(rng()))],
+            |p| match p.check_ref() { Ok(c) => format!("{:?} {:?} {:?}", c.target_dim(), c.eps(), c.rng()), Err(e) => dv(e) },
+            |c| vec![("target_dim", dv(c.target_dim())), ("eps", dv(c.eps())), ("rng", dv(c.rng()))],
+            vec![("target_dim", dv(want.0)), ("eps", dv(want.1)), ("rng", dv(rng()))])
+    }) });
+
+    cb.push(ChainBuilder { name: "PlattParams", label: "PlattParams<f64,FittedLinearRegression<f64>>", skipped: vec![], spec: Box::new(|v| {
+        type P = PlattParams<f64, linfa_linear::FittedLinearRegression<f64>>;
+        let (mi, ms, sg) = (v[0].n() as usize, v[1].f64(), v[2].f64());
+        mk_chain(|| { let p: P = Platt::params(); p },
+            vec![st::<P>("maxiter", move |p| p.maxiter(mi)), st::<P>("minstep", move |p| p.minstep(ms)), st::<P>("sigma", move |p| p.sigma(sg))],
+            |p| dv(p),
+            |c| { let t = dv(c); vec![("all fields", t[t.find("maxiter: ").unwrap_or(0)..].to_string())] },
+            vec![("all fields", format!("maxiter: {}, minstep: {:?}, sigma: {:?}, phantom: PhantomData<{}> }}", mi, ms, sg, "linfa_linear::ols::FittedLinearRegression<f64>"))])
+    }) });
+
+    cb.push(ChainBuilder { name: "SvmParams", label: "SvmParams<f64,bool|Pr|f64>",
+        skipped: vec![("c_eps", "deprecated; sets C and the solver eps at once, overlapping with `eps` by design"), ("nu_eps", "deprecated; sets nu and the solver eps at once, overlapping with `eps` by design")],
+        spec: Box::new(|v| {
+        let (mode, a, b, eps) = (v[0].n(), v[1].f64(), v[2].f64(), v[3].f64());
+        let (pmi, pms, psg) = (v[4].n() as usize, v[5].f64(), v[6].f64());
+        let platt = move || { let p: PlattParams<f64, ()> = Platt::params(); p.maxiter(pmi).minstep(pms).sigma(psg) };
+        let opt = |o: Option<(f64, f64)>| dv(o);
+        // one setter of each group that writes the same field: C / nu (pos_neg_weights | nu_weight | c_svr | nu_svr), kernel (four setters)
+        macro_rules! svm { ($L:ty, $cn:expr, $cset:expr, $kn:expr, $kset:expr, $want_c:expr, $want_nu:expr, $want_k:expr) => {{
+            type P = linfa_svm::SvmParams<f64, $L>;
+            mk_chain(|| Svm::<f64, $L>::params(),
+                vec![st::<P>("eps", move |p| p.eps(eps)), st::<P>("shrinking", |p| p.shrinking(true)), st::<P>("with_platt_params", move |p| p.with_platt_params(platt())),
+                     st::<P>($cn, $cset), st::<P>($kn, $kset)],
+                |p| dv(p),
+                move |c| vec![("c", opt(c.c())), ("nu", opt(c.nu())), ("eps", dv(c.solver_params().eps)), ("shrinking", dv(c.solver_params().shrinking)), ("kernel", dv(c.kernel_params())), ("platt", dv(c.platt_params()))],
+                vec![("c", dv($want_c)), ("nu", dv($want_nu)), ("eps", dv(eps)), ("shrinking", dv(true)), ("kernel", dv($want_k)), ("platt", dv(platt()))])
+        }}}
+        let none: Option<(f64, f64)> = None;
+        match mode {
+            0 => svm!(bool, "pos_neg_weights", move |p| p.pos_neg_weights(a, b), "gaussian_kernel", |p| p.gaussian_kernel(2.0), Some((a, b)), none, Kernel::<f64>::params().method(KernelMethod::Gaussian(2.0))),
+            1 => svm!(bool, "nu_weight", move |p| p.nu_weight(a), "polynomial_kernel", |p| p.polynomial_kernel(1.0, 3.0), none, Some((a, a)), Kernel::<f64>::params().method(KernelMethod::Polynomial(1.0, 3.0))),
+            2 => svm!(f64, "c_svr", move |p| p.c_svr(a, Some(b)), "linear_kernel", |p| p.gaussian_kernel(9.0).linear_kernel(), Some((a, b)), none, Kernel::<f64>::params().method(KernelMethod::Linear)),
+            3 => svm!(f64, "nu_svr", move |p| p.nu_svr(a, Some(b)), "with_kernel_params", |p| p.with_kernel_params(Kernel::params().method(KernelMethod::Gaussian(4.0))), none, Some((a, b)), Kernel::<f64>::params().method(KernelMethod::Gaussian(4.0))),
+            _ => svm!(Pr, "pos_neg_weights", move |p| p.pos_neg_weights(a, b), "gaussian_kernel", |p| p.gaussian_kernel(2.0), Some((a, b)), none, Kernel::<f64>::params().method(KernelMethod::Gaussian(2.0))),
+        }
+    }) });
+
+    cb.push(ChainBuilder { name: "DecisionTreeParams", label: "DecisionTreeParams<f64,usize>", skipped: vec![], spec: Box::new(|v| {
+        type P = linfa_trees::DecisionTreeParams<f64, usize>;
+        let mid = v[0].f64();
+        let md = match &v[1] { PV::Som(b) => Some(b.n() as usize), _ => None };
+        mk_chain(|| DecisionTree::<f64, usize>::params(),
+            vec![st::<P>("split_quality", |p| p.split_quality(linfa_trees::SplitQuality::Entropy)), st::<P>("max_depth", move |p| p.max_depth(md)), st::<P>("min_weight_split", |p| p.min_weight_split(3.0)),
+                 st::<P>("min_weight_leaf", |p| p.min_weight_leaf(1.5)), st::<P>("min_impurity_decrease", move |p| p.min_impurity_decrease(mid))],
+            |p| dv(p),
+            |c| vec![("split_quality", dv(c.split_quality())), ("max_depth", dv(c.max_depth())), ("min_weight_split", dv(c.min_weight_split())), ("min_weight_leaf", dv(c.min_weight_leaf())),
+                     ("min_impurity_decrease", dv(c.min_impurity_decrease()))],
+            vec![("split_quality", dv(linfa_trees::SplitQuality::Entropy)), ("max_depth", dv(md)), ("min_weight_split", dv(3.0f32)), ("min_weight_leaf", dv(1.5f32)), ("min_impurity_decrease", dv(mid))])
+    }) });
+
+    cb.push(ChainBuilder { name: "GaussianNbParams", label: "GaussianNbParams<f64,usize>", skipped: vec![], spec: Box::new(|v| {
+        type P = linfa_bayes::GaussianNbParams<f64, usize>;
+        let vs = v[0].f64();
+        mk_chain(|| GaussianNb::<f64, usize>::params(), vec![st::<P>("var_smoothing", move |p| p.var_smoothing(vs))], |p| dv(p),
+            |c| vec![("var_smoothing", dv(c.var_smoothing()))], vec![("var_smoothing", dv(vs))])
+    }) });
+    cb.push(ChainBuilder { name: "MultinomialNbParams", label: "MultinomialNbParams<f64,usize>", skipped: vec![], spec: Box::new(|v| {
+        type P = linfa_bayes::MultinomialNbParams<f64, usize>;
+        let a = v[0].f64();
+        mk_chain(|| MultinomialNb::<f64, usize>::params(), vec![st::<P>("alpha", move |p| p.alpha(a))], |p| dv(p),
+            |c| vec![("alpha", dv(c.alpha()))], vec![("alpha", dv(a))])
+    }) });
+
+    cb.push(ChainBuilder { name: "TSneParams", label: "TSneParams<f64,SmallRng>", skipped: vec![], spec: Box::new(|v| {
+        let (px, th) = (v[0].f64(), v[1].f64());
+        let start = || TSneParams::<f64, _>::embedding_size(2);
+        fn go<P: ParamGuard + 'static>(start: impl Fn() -> P + 'static, setters: Vec<Setter<P>>, render: impl Fn(&P) -> String + 'static, getters: impl Fn(&P::Checked) -> Vec<(&'static str, String)> + 'static, want: Vec<(&'static str, String)>) -> ChainSpec { mk_chain(start, setters, render, getters, want) }
+        go(start,
+            vec![st("approx_threshold", move |p: TSneParams<f64, _>| p.approx_threshold(th)), st("perplexity", move |p: TSneParams<f64, _>| p.perplexity(px)),
+                 st("max_iter", |p: TSneParams<f64, _>| p.max_iter(33)), st("preliminary_iter", |p: TSneParams<f64, _>| p.preliminary_iter(7))],
+            |p| dv(p),
+            |c| vec![("embedding_size", dv(c.embedding_size())), ("approx_threshold", dv(c.approx_threshold())), ("perplexity", dv(c.perplexity())), ("max_iter", dv(c.max_iter())), ("preliminary_iter", dv(c.preliminary_iter()))],
+            vec![("embedding_size", dv(2usize)), ("approx_threshold", dv(th)), ("perplexity", dv(px)), ("max_iter", dv(33usize)), ("preliminary_iter", dv(Some(7usize)))])
+    }) });
+    cb
+}
+
+
+/// the hand-written entry points on unchecked builders of coq/gen/C04_guards.v [entry_points]:
+/// (file, trait, receiver, first argument type, method, shape of the body as emitted)
+fn source_direct_entry_points() -> Option<Vec<(String, String, String, String, String, String)>> {
+    let root = std::env::var("VERIF_ROOT").unwrap_or_else(|_| ".".into());
+    let txt = std::fs::read_to_string(std::path::Path::new(&root).join("coq/gen/C04_guards.v")).ok()?;
+    let a = txt.find("Definition entry_points")?;
+    let b = a + txt[a..].find("\n\n")?;
+    let re = regex::Regex::new(r#"(?s)ep_file := "([^"]*)"; ep_trait := "([^"]*)"; ep_recv := "([^"]*)"; ep_cls := EpUnchecked; ep_builder := "[^"]*"; ep_records := "([^"]*)";\s*ep_fns := \[(.*?)\] \|\}"#).unwrap();
+    let fre = regex::Regex::new(r#"\("(\w+)", (\(Ep\w+ "(?:[^"]|"")*"(?: \w+)?\)|EpGetter)\)"#).unwrap();
+    let mut v = vec![];
+    for c in re.captures_iter(&txt[a..b]) {
+        for f in fre.captures_iter(&c[5]) {
+            if &f[2] != "EpGetter" {
+                v.push((c[1].to_string(), c[2].to_string(), c[3].to_string(), c[4].to_string(), f[1].to_string(), f[2].to_string()));
+            }
+        }
+    }
+    Some(v)
+}
+
+/// the hand-written entry points the harness calls (builder, key = method:first argument type)
+const DIRECT_CALLS: &[(&str, &str)] = &[
+    ("TSneParams", "transform:Array2<F>"), ("TSneParams", "transform:DatasetBase<Array2<F>,T>"),
+    ("CountVectorizerParams", "fit:&ArrayBase<D,Ix1>"), ("CountVectorizerParams", "fit_files:&[P]"), ("CountVectorizerParams", "fit_vocabulary:&[T]"),
+];
+
+/// `builder_setters` of coq/gen/C04_guards.v (what the translator found in the sources on this run)
+fn source_setters() -> Option<std::collections::HashMap<String, Vec<String>>> {
+    let root = std::env::var("VERIF_ROOT").unwrap_or_else(|_| ".".into());
+    let txt = std::fs::read_to_string(std::path::Path::new(&root).join("coq/gen/C04_guards.v")).ok()?;
+    let a = txt.find("Definition builder_setters")?;
+    let b = txt.find("(* END builder_setters *)")?;
+    let re = regex::Regex::new(r#"\("(\w+)",\s*\[([^\]]*)\]\)"#).unwrap();
+    let mut m = std::collections::HashMap::new();
+    for c in re.captures_iter(&txt[a..b]) {
+        m.insert(c[1].to_string(), c[2].split(';').map(|t| t.trim().trim_matches('"').to_string()).filter(|t| !t.is_empty()).collect());
+    }
+    Some(m)
 }
 
 // ------------------------------------------------------------------------------------------------
@@ -1125,8 +1490,61 @@ fn combos(fields: &[Field], base: &[usize], limit: usize, extra_random: usize, r
     out
 }
 
+
+// ------------------------------------------------------------------------------------------------
+// non-finite values: the boundary of the property, documented in coq/C04/Fields.v (nonfinite_table)
+
+/// every float of a parameter set with its path (record field / tuple index / enum variant), as in gen/C04_fields.v
+fn float_leaves(v: &PV, path: &str, out: &mut Vec<(String, f64)>) {
+    match v {
+        PV::F(x) => out.push((path.to_string(), *x)),
+        PV::F32(x) => out.push((path.to_string(), *x as f64)),
+        PV::Som(w) => float_leaves(w, path, out),
+        PV::Tup(l) => l.iter().enumerate().for_each(|(i, w)| float_leaves(w, &format!("{}.{}", path, i), out)),
+        PV::Ctor(c, l) => l.iter().for_each(|w| float_leaves(w, &format!("{}.{}", path, c), out)),
+        PV::Rec(l) => l.iter().for_each(|(k, w)| float_leaves(w, &(if path.is_empty() { k.to_string() } else { format!("{}.{}", path, k) }), out)),
+        _ => {}
+    }
+}
+
+fn special_name(x: f64) -> Option<&'static str> {
+    if x.is_nan() { Some("SNaN") } else if x == f64::INFINITY { Some("SPInf") } else if x == f64::NEG_INFINITY { Some("SNInf") } else { None }
+}
+
+/// (builder, leaf) -> the special values Fields.nonfinite_table lists as accepted; None when the table cannot be read
+fn nonfinite_listing() -> Option<std::collections::HashMap<(String, String), Vec<String>>> {
+    let root = std::env::var("VERIF_ROOT").unwrap_or_else(|_| ".".into());
+    let txt = std::fs::read_to_string(std::path::Path::new(&root).join("coq/C04/Fields.v")).ok()?;
+    let a = txt.find("(* BEGIN nonfinite_table *)")?;
+    let b = txt.find("(* END nonfinite_table *)")?;
+    let re = regex::Regex::new(r#"\(\s*"(\w+)"\s*,\s*"([^"]+)"\s*,\s*\[([^\]]*)\]"#).unwrap();
+    let mut m = std::collections::HashMap::new();
+    for c in re.captures_iter(&txt[a..b]) {
+        let acc: Vec<String> = c[3].split(';').map(|t| t.trim().to_string()).filter(|t| !t.is_empty()).collect();
+        m.insert((c[1].to_string(), c[2].to_string()), acc);
+    }
+    if m.is_empty() { None } else { Some(m) }
+}
+
+/// the table's name of a leaf path: the elements of a float array are one leaf `name.*`
+fn listed_leaf<'a>(listing: &'a std::collections::HashMap<(String, String), Vec<String>>, b: &str, path: &str) -> Option<(&'a String, &'a Vec<String>)> {
+    if let Some((k, v)) = listing.get_key_value(&(b.to_string(), path.to_string())) {
+        return Some((&k.1, v));
+    }
+    if let Some(i) = path.rfind('.') {
+        let star = format!("{}.*", &path[..i]);
+        if let Some((k, v)) = listing.get_key_value(&(b.to_string(), star)) {
+            return Some((&k.1, v));
+        }
+    }
+    None
+}
+
 fn main() {
     let args = parse_args();
+    let listing = nonfinite_listing();
+    if listing.is_none() { eprintln!("c04: coq/C04/Fields.v nonfinite_table could not be read"); std::process::exit(3); }
+    let listing = listing.unwrap();
     let mut rng = Sm64::new(args.seed);
     let thorough = args.tier == "thorough";
     let mut out = Out::new(&args.out, args.shards, "C04.Corr", "case", args.only);
@@ -1167,12 +1585,23 @@ fn main() {
             for bad in &f.bad {
                 let mut v = base.clone();
                 v[k] = bad.clone();
-                rows.push((v, "malformed"));
+                rows.push((v, "malformed_base"));
                 for _ in 0..(if thorough { 6 } else { 2 }) {
                     let mut v: Vec<PV> = b.fields.iter().map(|g| g.cands[r.below(g.cands.len() as u64) as usize].clone()).collect();
                     v[k] = bad.clone();
                     rows.push((v, "malformed"));
                 }
+            }
+        }
+        if b.name == "SvmParams" {
+            // nu is only set by modes 1 and 3: a non-finite nu (a) or second component (b) next to otherwise valid values
+            for bad in malformed::<f64>() {
+                let mut v = base.clone();
+                v[0] = PV::N(3); v[1] = bad.clone(); v[2] = PV::F(1.0);
+                rows.push((v, "malformed_base"));
+                let mut v = base.clone();
+                v[0] = PV::N(3); v[1] = PV::F(0.5); v[2] = bad.clone();
+                rows.push((v, "malformed_base"));
             }
         }
         // valid builders are trained (unchecked against checked form) on about `budget` rows per builder
@@ -1235,6 +1664,32 @@ fn main() {
                 "CountVectorizerParams" => { if let Some(PV::Tup(l)) = get("document_frequency") { if l[1].f64() > 1.0 { tags.push("max_freq_gt_1".into()); } } }
                 _ => {}
             }
+            if b.name == "FastIcaParams" {
+                if let Some(PV::Ctor("Logcosh", a)) = get("gfunc") { let x = a[0].f64(); if x.is_finite() && !(1.0..=2.0).contains(&x) { tags.push("logcosh_alpha_outside_1_2".into()); } }
+            }
+            // exactly one non-finite value, everything else finite: compare with Fields.nonfinite_table
+            let mut leaves = vec![];
+            float_leaves(&envv, "", &mut leaves);
+            let nonfin: Vec<&(String, f64)> = leaves.iter().filter(|(_, x)| !x.is_finite()).collect();
+            let mut nf_fail: Option<String> = None;
+            if nonfin.len() == 1 {
+                let (path, x) = nonfin[0];
+                let sp = special_name(*x).unwrap();
+                match listed_leaf(&listing, b.name, path) {
+                    None => nf_fail = Some(format!("float leaf `{}` of {} is not in Fields.nonfinite_table", path, b.name)),
+                    Some((leaf, acc)) => {
+                        let listed = acc.iter().any(|t| t == sp);
+                        let key = format!("{}.{}:{}", b.name, leaf, sp);
+                        out.bump(&format!("nonfinite_{}:{}", if obs.vref.ok { "accepted" } else { "rejected" }, key));
+                        if obs.vref.ok && !listed {
+                            nf_fail = Some(format!("check_ref accepts {} at `{}` of {} (every other value finite) but Fields.nonfinite_table lists it as rejected", sp, leaf, b.name));
+                        } else if !obs.vref.ok && listed && stream == "malformed_base" {
+                            nf_fail = Some(format!("check_ref rejects {} at `{}` of {} with every other parameter at its default, but Fields.nonfinite_table lists it as accepted", sp, leaf, b.name));
+                        }
+                    }
+                }
+                tags.push("single_nonfinite".into());
+            }
             let calls_desc: Vec<String> = obs.calls.iter().map(|c| format!("{}:{}{}", c.kind, ["ok", "guard_error", "other_error", "panic", "timeout"][c.outcome as usize], if c.what.is_empty() { String::new() } else { format!(" [{}]", c.what) })).collect();
             let desc = format!(
                 "{{\"builder\": {}, \"params\": {}, \"check_ref\": {}, \"check\": {}, \"check_ref_with_pos_zero_accepts\": {}, \"readback_ok\": {}, \"calls\": {}}}",
@@ -1258,7 +1713,150 @@ fn main() {
             let tagrefs: Vec<&str> = tags.iter().map(|s| s.as_str()).collect();
             let key = if dflt { None } else { Some(fnv(format!("{}|{}", b.label, envv.coq()).as_bytes())) };
             out.case(my, &coq, &tagrefs, &desc, key);
+            if let Some(what) = nf_fail {
+                out.rust_fail(my, 8192, &tagrefs, &what, &desc);
+            }
         }
     }
-    out.finish("every public parameter builder x the boundary grid of each parameter (below / at / just inside / far inside each documented bound, -0.0) in combination (full product up to the tier's limit, else all pairs of values of any two parameters + random rows), a malformed stream (NaN, +-inf) and the default builder; a case is non-trivial unless it is the default builder; distinct = distinct (instantiation, parameter set) hashes");
+    // ---- setter independence: the same intended parameter set through different setter chain orders
+    let dchain = std::sync::Arc::new(data());
+    let src_setters = source_setters();
+    let mut chained: std::collections::BTreeMap<&'static str, std::collections::BTreeSet<&'static str>> = Default::default();
+    let chains = chain_builders(&dchain);
+    for cbd in &chains {
+        let b = bs.iter().find(|b| b.label == cbd.label).expect("chain builder without a grid");
+        let mut r = rng.fork();
+        let base: Vec<PV> = b.fields.iter().zip(&b.defaults).map(|(f, dv)| dv.clone().unwrap_or_else(|| f.cands[f.cands.len() - 1].clone())).collect();
+        let valid = |v: &[PV]| (b.run)(v, false, false).vref.ok;
+        // intended sets: the defaults, one parameter at a time away from them, random rows of the grid - the valid ones
+        let mut sets: Vec<Vec<PV>> = vec![base.clone()];
+        let mut singles: Vec<Vec<PV>> = vec![];
+        for (k, f) in b.fields.iter().enumerate() {
+            for c in &f.cands {
+                let mut v = base.clone();
+                v[k] = c.clone();
+                if !v[k].same(&base[k]) && valid(&v) { singles.push(v); }
+            }
+        }
+        r.shuffle(&mut singles);
+        let cap = if thorough { 60 } else { 12 };
+        // (every value of the first field is kept: it selects the variant for builders with alternative setters)
+        let (firsts, rest): (Vec<Vec<PV>>, Vec<Vec<PV>>) = singles.into_iter().partition(|v| !v[0].same(&base[0]) && !matches!(v[0], PV::F(_) | PV::F32(_)));
+        sets.extend(firsts);
+        sets.extend(rest.into_iter().take(cap));
+        let mut tries = 0;
+        let want_random = if thorough { 12 } else { 3 };
+        let mut got = 0;
+        while got < want_random && tries < 300 {
+            tries += 1;
+            let v: Vec<PV> = b.fields.iter().map(|f| f.cands[r.below(f.cands.len() as u64) as usize].clone()).collect();
+            if valid(&v) { sets.push(v); got += 1; }
+        }
+        for vals in &sets {
+            let spec = (cbd.spec)(vals);
+            let n = spec.names.len();
+            chained.entry(cbd.name).or_default().extend(spec.names.iter().cloned());
+            let canon: Vec<usize> = (0..n).collect();
+            let mut orders: Vec<(String, String, Vec<usize>)> = vec![("canonical".into(), String::new(), canon.clone()), ("reverse".into(), String::new(), canon.iter().rev().cloned().collect())];
+            for k in 0..n {
+                let mut o: Vec<usize> = canon.iter().cloned().filter(|i| *i != k).collect();
+                o.push(k);
+                orders.push(("last".into(), spec.names[k].to_string(), o));
+                let mut o = canon.clone();
+                o.push(k);
+                orders.push(("twice".into(), spec.names[k].to_string(), o));
+                let mut o = vec![k];
+                o.extend(canon.iter().cloned());
+                orders.push(("first_and_again".into(), spec.names[k].to_string(), o));
+            }
+            for _ in 0..(if thorough { 6 } else { 2 }) {
+                let mut o = canon.clone();
+                r.shuffle(&mut o);
+                orders.push(("permutation".into(), String::new(), o.clone()));
+                if n > 0 { o.push(r.below(n as u64) as usize); r.shuffle(&mut o); orders.push(("permutation_with_repeat".into(), String::new(), o)); }
+            }
+            let envv = PV::Rec((b.env)(vals));
+            for (kind, which, order) in orders {
+                let my = id;
+                id += 1;
+                if !out.wanted(my) { continue; }
+                let (ref_render, _) = (spec.eval)(&canon);
+                let (render, rb) = (spec.eval)(&order);
+                let chain_txt: Vec<&str> = order.iter().map(|i| spec.names[*i]).collect();
+                let mut problems: Vec<String> = vec![];
+                if render != ref_render {
+                    problems.push(format!("the unchecked builder differs from the one built in source order: {:.300} vs {:.300}", render, ref_render));
+                }
+                match &rb {
+                    Some(got) => {
+                        for ((f, g), (_, w)) in got.iter().zip(&spec.want) {
+                            if g != w { problems.push(format!("field `{}` read back from the checked parameters is {:.120}, intended {:.120}", f, g, w)); }
+                        }
+                        if got.len() != spec.want.len() { problems.push("read-back list and intended list differ in length".into()); }
+                    }
+                    None => problems.push("check_ref rejects the chained builder although the same values set in the usual order are accepted".into()),
+                }
+                let tags: Vec<String> = vec![b.name.to_string(), b.label.clone(), "stream_chain".into(), format!("chain_order_{}", kind),
+                                             if which.is_empty() { format!("chain_order_{}", kind) } else { format!("chain_order_{}:{}", kind, which) }];
+                let tagrefs: Vec<&str> = tags.iter().map(|t| t.as_str()).collect();
+                let desc = format!("{{\"builder\": {}, \"intended\": {}, \"setter_chain\": {}, \"chain_kind\": {}}}", jstr(&b.label), jstr(&envv.show()), jstr(&chain_txt.join(" . ")), jstr(&format!("{} {}", kind, which)));
+                out.bump("stream_chain");
+                out.bump(&format!("chain_order_{}", kind));
+                out.bump(&format!("chain_builder_{}", b.name));
+                out.rust_eval(&desc, Some(fnv(format!("chain|{}|{}|{:?}", b.label, envv.coq(), order).as_bytes())));
+                if !problems.is_empty() {
+                    out.rust_fail(my, 16384, &tagrefs, &format!("setter independence: {} with the chain [{}]: {}", b.label, chain_txt.join(" . "), problems.join("; ")), &desc);
+                }
+            }
+        }
+    }
+    // every public setter found in the sources is part of some chain (or deliberately left out, with a reason)
+    if args.only.is_none() {
+        let exempt: &[(&str, &str)] = &[("PlsParams", "crate-private builder: cannot be constructed from outside the crate")];
+        match &src_setters {
+            None => { let my = id; out.rust_fail(my, 32768, &["stream_chain"], "coq/gen/C04_guards.v builder_setters could not be read", "{}"); }
+            Some(tbl) => {
+                let mut names: Vec<&String> = tbl.keys().collect();
+                names.sort();
+                for bn in names {
+                    if exempt.iter().any(|(e, _)| e == bn) { out.bump(&format!("chain_not_applicable_{}", bn)); continue; }
+                    let cbd = chains.iter().find(|c| c.name == bn.as_str());
+                    let used = chained.get(bn.as_str());
+                    for sname in &tbl[bn] {
+                        let ok = used.map_or(false, |u| u.contains(sname.as_str())) || cbd.map_or(false, |c| c.skipped.iter().any(|(k, _)| k == sname));
+                        if !ok {
+                            let my = id;
+                            id += 1;
+                            let tags = [bn.as_str(), "stream_chain", "setter_not_chained"];
+                            out.rust_fail(my, 32768, &tags, &format!("the public setter `{}` of {} found in the sources is not part of the harness's setter chains", sname, bn), "{}");
+                        }
+                    }
+                    if let Some(c) = cbd { for (k, why) in &c.skipped { out.bump(&format!("chain_setter_left_out_{}.{} ({})", bn, k, why)); } }
+                }
+            }
+        }
+    }
+    // every hand-written entry point on an unchecked builder found in the sources is one the harness calls
+    if args.only.is_none() {
+        match source_direct_entry_points() {
+            None => { out.rust_fail(id, 65536, &["entry_points"], "coq/gen/C04_guards.v entry_points could not be read", "{}"); }
+            Some(eps) => {
+                out.bump_by("direct_entry_points_in_sources", eps.len() as u64);
+                for (file, tr, recv, records, fname, shape) in eps {
+                    let key = format!("{}:{}", fname, records);
+                    if !DIRECT_CALLS.iter().any(|(b, k)| *b == recv && *k == key) {
+                        let my = id;
+                        id += 1;
+                        let what = format!("{}: `impl {} for {}`, method `{}` (first argument {}) reaches the unchecked builder and the harness has no call for it; translated body: {}. Failing input when the body is not `check_ref` first: any {} the guard rejects, then `.{}(..)`",
+                                           file, if tr.is_empty() { "(inherent)" } else { &tr }, recv, fname, records, shape, recv, fname);
+                        out.rust_fail(my, 65536, &[recv.as_str(), "entry_point_not_exercised"], &what, "{}");
+                    }
+                }
+            }
+        }
+    }
+    let _ = id;
+    out.finish("every public parameter builder x the boundary grid of each parameter (below / at / just inside / far inside each documented bound, -0.0) in combination (full product up to the tier's limit, else all pairs of values of any two parameters + random rows), a malformed stream (NaN, +-inf) and the default builder; a case is non-trivial unless it is the default builder; distinct = distinct (instantiation, parameter set) hashes; plus the setter-chain stream: for every builder, valid intended parameter sets (defaults, one parameter away from them, random grid rows) built through the setter chain in source order, reversed, with each setter moved last / repeated at the end / called first and again, and PRNG permutations with and without a repeat - the unchecked builders must be identical and the checked form must read back the intended values");
+    // the document files written for CountVectorizerParams::fit_files
+    let _ = std::fs::remove_dir_all(std::env::temp_dir().join(format!("verif_c04_{}", std::process::id())));
 }
